@@ -15,7 +15,8 @@
   "unwindset": ["memcmp.0:34"],
   "object_bits": 10,
   "native_replay": true,
-  "timeout": 300
+  "timeout": 300,
+  "timeout_thorough": 1200
 }
 @*/
 /* C07.U4c  the CALL SITE of the TLS 1.3 downgrade check: the legacy
